@@ -52,9 +52,13 @@ Theorem C02_recovery_returns_image : forall c, reach c -> c_v c = None ->
 Proof. exact recovery_returns_image. Qed.
 
 (* ---- 5. reads after recovery.  Any store whose tree is a well-formed, Ordered arrangement (C01)
-   of the recovered entries returns, for every key, the newest recovered version: tree recovery
-   (recover.rs) re-levels files and is C01's subject; C02 guarantees WHICH entries it gets. *)
-Theorem C02_reads_newest_recovered : forall (st : store) (E : list entry) k,
+   of the recovered entries returns, for every key, the newest recovered version.  Tree recovery
+   (recover.rs) re-levels the files from their key and timestamp ranges and is not part of this
+   model; C02 guarantees WHICH entries it gets (theorem 1).  The known class K2 (C01: recovery
+   builds a tree that is not Ordered when two files overlap in key range and in timestamp range)
+   is exactly the complement of the hypothesis `Ordered st`: this is the statement outside the
+   known class ... *)
+Theorem C02_reads_newest_recovered_outside_known : forall (st : store) (E : list entry) k,
   wf_version (ver st) -> Ordered st ->
   (forall e, In e (Lsm.Ordered.all_entries st) <-> In e E) ->
   match load st k (seq st) with
@@ -63,20 +67,33 @@ Theorem C02_reads_newest_recovered : forall (st : store) (E : list entry) k,
   end.
 Proof. exact reads_newest_recovered. Qed.
 
+(* ---- 5b. ... and without it the statement is false: two files in level 0 that overlap in key
+   range and in timestamp range ([k@3, z@9] and [a@1, k@5]) are consulted by largest timestamp,
+   and the read of k returns the version 3 although version 5 was recovered (K2). *)
+Theorem C02_reads_newest_recovered_refuted : exists (st : store) k e e',
+  wf_version (ver st) /\ load st k (seq st) = Some e /\
+  In e' (Lsm.Ordered.all_entries st) /\ ek e' = k /\ ets e' <= seq st /\ ets e < ets e'.
+Proof.
+  exists (mkS [] ([[mkF 1 [mkE [107] 3 (Some [1]); mkE [122] 9 (Some [2])] 10;
+                    mkF 2 [mkE [97] 1 (Some [3]); mkE [107] 5 (Some [4])] 10]] ++ repeat [] 15) 10),
+         [107], (mkE [107] 3 (Some [1])), (mkE [107] 5 (Some [4])).
+  vm_compute. repeat split; try reflexivity; try discriminate. right. right. right. now left.
+Qed.
+
 (* ---- 6. an I/O error is surfaced.  For ANY program of calls in the model (every operation and
    open is one): if it completes without error when nothing is injected, then a single I/O error
    injected at its k-th call makes it return an error — unless the Rust deliberately drops the
    result of that call (`let _ = rename(..)`) ... *)
 Theorem C02_fault_surfaced : forall p k s, run p s = (fst (run p s), None) ->
-  (k < length p)%nat -> snd (nth k p (CSync NMani, Must)) <> Ignore ->
+  (k < length p)%nat -> ~ dropped (snd (nth k p (CSync NMani, Must))) ->
   snd (run_prog p (Some k) O s None) <> None.
 Proof. exact fault_surfaced_prog. Qed.
 
 (* ---- 6b. ... and the only calls whose result is dropped are the renames of an SST that is no
    longer referenced from sst/ to trash/ (explicit_unref, cleanup_orphans). *)
-Theorem C02_only_trash_renames_ignored : forall c,
-  (forall v s o, In (c, Ignore) (fst (op_prog v s o)) -> exists x, c = CRename (NSst x) (NTrashSst x)) /\
-  (forall s, In (c, Ignore) (fst (fst (open_prog s))) -> exists x, c = CRename (NSst x) (NTrashSst x)).
+Theorem C02_only_trash_renames_dropped : forall c m, dropped m ->
+  (forall v s o, In (c, m) (fst (op_prog v s o)) -> exists x, c = CRename (NSst x) (NTrashSst x)) /\
+  (forall s, In (c, m) (fst (fst (open_prog s))) -> exists x, c = CRename (NSst x) (NTrashSst x)).
 Proof. exact only_trash_renames_ignored. Qed.
 
 (* ---- 6c. an error that ends an operation leaves a recoverable directory: when the failing call is
